@@ -254,6 +254,9 @@ def run(ctx):
                 ctx.check(ok, "R10.5", f"{fn['file']}:{q['line']}", f"{fn['name']}|unknown-under-not-exhaustive|{q['line'] - fn['line']}", f"{fn['name']}: a template mentioning the Unknown variant is emitted under {conds}; it must be on the !exhaustive branch",
                           instance=f"{fn['name']}: Unknown piece under {conds[0][:40]}", nontrivial=False)
         ctx.floor("R10.5", "Unknown templates guarded by the exhaustive flag", n, 4)
+    # ---------------- R10.6 the payload of an unknown union variant is carried by Any (shared with C13)
+    from . import c13
+    ctx.include(c13, {"R13.1", "R13.2"}, "R10.6", "the payload of an unknown variant must re-serialize to an equivalent document")
 
 
 def field_names(sources):
